@@ -4,9 +4,11 @@ from ._write_common import run_common
 
 def run(ctx):
     q = ctx.tier == "quick"
-    run_common(ctx, "C04", ["SfProps.C04", "SfProps.C04Caf", "SfProps.C04W64", "SfProps.C04Aiff"], stride=2 if q else 1, l1_scripts=250 if q else 2500)
+    run_common(ctx, "C04", ["SfProps.C04", "SfProps.C04Caf", "SfProps.C04W64", "SfProps.C04Aiff", "SfProps.C04Wavex", "SfProps.C04Rf64"], stride=2 if q else 1, l1_scripts=250 if q else 2500)
     if not getattr(ctx, "replay", None):
         from .. import cafw64
         cafw64.campaign(ctx)      # CAF / W64 byte-exact container models (lean/SfModel/Caf.lean, W64.lean)
+        from .. import wavexrf64
+        wavexrf64.campaign(ctx)   # WAVEX / RF64 write-side models (lean/SfModel/Wavex.lean, Rf64.lean)
         from .. import aiff          # AIFF / AIFF-C container model (lean/SfModel/Aiff.lean) against the library
         aiff.run(ctx, found=bool(ctx.violations))
